@@ -26,3 +26,32 @@ class Dup(metaclass=StableHashMeta):
 
     first: str = field(default="", metadata={"type": "Element"})
     second: Optional[int] = field(default=None, metadata={"type": "Element"})
+
+
+@dataclass
+class Shape(metaclass=StableHashMeta):
+    class Meta:
+        name = "shape"
+        namespace = "urn:shapes"
+        target_namespace = "urn:shapes"
+
+    label: str = field(default="", metadata={"type": "Element"})
+
+
+@dataclass
+class Circle(Shape):
+    class Meta:
+        name = "circle"
+        namespace = "urn:shapes"
+        target_namespace = "urn:shapes"
+
+    radius: Optional[float] = field(default=None, metadata={"type": "Element"})
+
+
+@dataclass
+class Drawing2(metaclass=StableHashMeta):
+    class Meta:
+        name = "drawing2"
+        namespace = "urn:shapes"
+
+    shape: Optional[Shape] = field(default=None, metadata={"type": "Element"})
